@@ -176,6 +176,9 @@ func (w *world) newHandler(ctx context.Context, kind string) (*hstate, *hqueue) 
 			c, _ = strconv.Atoi(v[0])
 		}
 	}
+	if c == 0 && anon != nil {
+		c = anon.nextHandler()
+	}
 	w.mu.Lock()
 	w.hn++
 	hs := &hstate{h: w.hn, c: c, kind: kind, ctx: ctx, started: true}
